@@ -36,6 +36,8 @@ class AInput(object):
         self.units = units
         self.x0 = x0
         self.x1 = x1
+        # False: thresholds / quantiles / members are stored in ascending order; True: in the insertion order of `fields`
+        self.keep_field_order = False
 
     # ---- structure ---------------------------------------------------------------------------
     def field_names(self):
@@ -83,6 +85,7 @@ class AInput(object):
     def copy(self):
         c = AInput(self.name, self.times, self.leads, self.locs,
                    {k: dict(v) for k, v in self.fields.items()}, self.variable, self.units, self.x0, self.x1)
+        c.keep_field_order = self.keep_field_order
         return c
 
     def describe(self):
@@ -137,13 +140,13 @@ def mem_input(ai):
     m.obs = arr("obs") if ai.has("obs") else None
     m.fcst = arr("fcst") if ai.has("fcst") else None
     m.pit = arr("pit") if ai.has("pit") else None
-    thr = sorted(set(ai.thresholds()))
+    thr = sorted(set(ai.thresholds())) if not ai.keep_field_order else list(dict.fromkeys(ai.thresholds()))
     m.thresholds = np.array(thr, dtype=float)
     m.threshold_scores = np.full((T, L, S, len(thr)), np.nan)
     for n in ai.fields:
         if _kind(n) == "p":
             m.threshold_scores[:, :, :, thr.index(float(n[1:]))] = arr(n)
-    qs = sorted(set(ai.quantiles()))
+    qs = sorted(set(ai.quantiles())) if not ai.keep_field_order else list(dict.fromkeys(ai.quantiles()))
     m.quantiles = np.array(qs, dtype=float)
     m.quantile_scores = np.full((T, L, S, len(qs)), np.nan)
     for n in ai.fields:
@@ -335,14 +338,16 @@ def netcdf_file(ai, path, missing_enc="nan", missing_encs=None, with_vars=("loca
             put3(f, f)
     pn = [n for n in ai.fields if _kind(n) == "p"]
     if pn:
-        pn.sort(key=lambda n: float(n[1:]))
+        if not ai.keep_field_order:
+            pn.sort(key=lambda n: float(n[1:]))
         ds.createDimension("threshold", len(pn))
         v = ds.createVariable("threshold", "f4", ("threshold",))
         v[:] = np.array([float(n[1:]) for n in pn], dtype="f4")
         put4("cdf", "threshold", pn)
     qn = [n for n in ai.fields if _kind(n) == "q"]
     if qn:
-        qn.sort(key=lambda n: float(n[1:]))
+        if not ai.keep_field_order:
+            qn.sort(key=lambda n: float(n[1:]))
         ds.createDimension("quantile", len(qn))
         v = ds.createVariable("quantile", "f4", ("quantile",))
         v[:] = np.array([float(n[1:]) for n in qn], dtype="f4")
